@@ -700,14 +700,40 @@ func (s *zstate) apply(ctx context.Context, step int, o op) {
 			for _, pm := range a.Permissions {
 				if q, held := s.held(c, pm, w); !held {
 					proof := ""
-					if q.typ == influxdb.BucketsResourceType && q.id != nil && !q.write {
-						// end to end: use the new token to read the bucket its creator cannot read
-						nctx := icontext.SetAuthorizer(ctx, a)
-						_, e1 := s.bw.FindBucketByID(nctx, *q.id)
-						_, e2 := s.bw.FindBucketByID(actx, *q.id)
-						proof = fmt.Sprintf("; end to end: FindBucketByID with the new token -> %s, with the creator's own authorizer -> %s", code(e1), code(e2))
+					nctx := icontext.SetAuthorizer(ctx, a)
+					if q.id != nil && !q.write {
+						// end to end: use the new token to read the resource its creator cannot read
+						var e1, e2 error
+						call := ""
+						switch q.typ {
+						case influxdb.BucketsResourceType:
+							call = "FindBucketByID"
+							_, e1 = s.bw.FindBucketByID(nctx, *q.id)
+							_, e2 = s.bw.FindBucketByID(actx, *q.id)
+						case influxdb.UsersResourceType:
+							call = "FindUserByID"
+							_, e1 = s.uw.FindUserByID(nctx, *q.id)
+							_, e2 = s.uw.FindUserByID(actx, *q.id)
+						case influxdb.OrgsResourceType:
+							call = "FindOrganizationByID"
+							_, e1 = s.ow.FindOrganizationByID(nctx, *q.id)
+							_, e2 = s.ow.FindOrganizationByID(actx, *q.id)
+						}
+						if call != "" {
+							proof = fmt.Sprintf("; end to end: %s with the new token -> %s, with the creator's own authorizer -> %s", call, code(e1), code(e2))
+						}
 					}
-					r.Violate("C29:token-grants-more-than-caller-holds", fmt.Sprintf("%s:%s", pm.Action, q), "step %d: c%d created a token carrying %s; that permission grants %s, which the creator's own permission set does not grant%s", step, o.C%3, pstr(pm, w), q.describe(w), proof)
+					// The signature names the shape of the failing input, so that a known finding is identified by it:
+					// the scope of the counterexample request, the scope of the granted permission, and whether the
+					// creator holds the organization-wide permission (same action, type and organization) that makes
+					// VerifyPermissions accept an {org, id} permission presented as a request.
+					via := "none"
+					if pm.Resource.OrgID != nil && pm.Resource.ID != nil &&
+						c.allowed(mreq{write: pm.Action == influxdb.WriteAction, typ: pm.Resource.Type, org: pm.Resource.OrgID}) {
+						via = "creator-org-scope"
+					}
+					sig := fmt.Sprintf("%s:%s req=%s grant=%s via=%s", pm.Action, q, scope(q.org, q.id), scope(pm.Resource.OrgID, pm.Resource.ID), via)
+					r.Violate("C29:token-grants-more-than-caller-holds", sig, "step %d: c%d created a token carrying %s; that permission grants %s, which the creator's own permission set does not grant%s", step, o.C%3, pstr(pm, w), q.describe(w), proof)
 					r.Probe("probe_escalation_candidate")
 				}
 			}
@@ -734,6 +760,19 @@ func (s *zstate) apply(ctx context.Context, step int, o op) {
 			mutated("DeleteAuthorization", err, needs...)
 		}
 	}
+}
+
+// scope names which of organization and resource id a request or permission carries.
+func scope(org, id *platform.ID) string {
+	switch {
+	case org != nil && id != nil:
+		return "org+id"
+	case org != nil:
+		return "org"
+	case id != nil:
+		return "id"
+	}
+	return "all"
 }
 
 func (q mreq) describe(w *world) string {
